@@ -220,15 +220,14 @@ static void blk_kdf(void) {
 		}
 	}
 }
-/* thorough: messages whose bit length exceeds 2^32 */
+/* messages whose bit length exceeds 2^32 (quick: one length and one chunking per algorithm; thorough: three lengths, two chunkings) */
 static void blk_long(void) {
-	if (!vh_thorough) return;
 	if (!vh_block_begin("long-2^29")) return;
 	static const size_t EXTRA[] = { 0, 1, 64 }, CH[] = { 1 << 20, 4093 };
 	static uint8_t big[1 << 20]; for (size_t i = 0; i < sizeof big; i++) big[i] = (uint8_t)(i * 13 + (i >> 8));
 	for (size_t a = 0; a < NALG; a++) for (int e = 0; e < 3; e++) for (int ch = 0; ch < 2; ch++) {
 		if (!vh_next()) continue;
-		const alg_t *A = &ALG[a]; if (!A->named) continue; if (ch == 1 && e != 1) continue;
+		const alg_t *A = &ALG[a]; if (!A->named) continue; if (ch == 1 && e != 1) continue; if (!vh_thorough && !(e == 1 && ch == 0)) continue;
 		size_t total = ((size_t)1 << 29) + EXTRA[e], done = 0; uint8_t out[64], exp[64]; size_t ol;
 		void *rc = ref_digest_new(A->oname); DIGEST_CTX c; digest_init(&c, A->get()); A->init(&NCTX);
 		while (done < total) { size_t n = CH[ch]; if (n > total - done) n = total - done; ref_digest_update(rc, big, n); digest_update(&c, big, n); A->upd(&NCTX, big, n); done += n; }
